@@ -157,3 +157,16 @@ Definition flat_mem := flat_mem_from 0.
 Definition check_bucket (c : Z * Z * list Z) : bool :=
   let '(w, bt, ts) := c in forallb (fun t => bucket_of w (1700000000 + t) * w =? 1700000000 + bt) ts.
 Definition bucket_mismatches (cs : list (Z * Z * list Z)) : list nat := bad_indices check_bucket 0 cs.
+
+(* ---- 5. selector with an auxiliary field (`SELECT last(x), y`): the aux value returned with the selected value must be
+   the aux field of a row that carries the selected value - for first / last of the row at the extreme time (the model's
+   sfirst / slast fix it), for min / max of any row carrying the value. rows: (time, value, aux). ---- *)
+Definition opt_z_eqb (a b : option Z) : bool :=
+  match a, b with Some x, Some y => x =? y | None, None => true | _, _ => false end.
+Definition check_aux (c : Z * list (Z * Z * option Z) * Z * option Z) : bool :=
+  let '(fn, rows, got, gaux) := c in
+  let st := agg_rows (map (fun r : Z * Z * option Z => (fst (fst r), Some (snd (fst r)))) rows) in
+  let tsel := match (if fn =? 4 then sfirst st else if fn =? 5 then slast st else None) with Some (_, t) => Some t | None => None end in
+  existsb (fun r : Z * Z * option Z =>
+             (snd (fst r) =? got) && (match tsel with Some t => fst (fst r) =? t | None => true end) && opt_z_eqb (snd r) gaux) rows.
+Definition aux_mismatches (cs : list (Z * list (Z * Z * option Z) * Z * option Z)) : list nat := bad_indices check_aux 0 cs.
